@@ -7,6 +7,7 @@ import (
 	sdkmath "cosmossdk.io/math"
 	sdk "github.com/cosmos/cosmos-sdk/types"
 	"github.com/palomachain/paloma/v2/x/skyway/types"
+	valsettypes "github.com/palomachain/paloma/v2/x/valset/types"
 	"github.com/palomachain/paloma/v2/zzverif/sym"
 )
 
@@ -53,6 +54,89 @@ func VerifC15_TaxAmount() {
 	sym.Assert(sym.And(lo.Cmp(prod) <= 0, prod.Cmp(hi) < 0), "tax-is-floor-of-amount-times-rate")
 }
 
+
+// VerifC15_Limits: transfer limits. A history of sends through the real msg
+// server (each delivered atomically: state is committed only when the handler
+// succeeds), at heights spread around the window boundary, by a limited and an
+// exempt sender, arbitrary amounts and limit. Ghost bookkeeping replays the
+// documented rule: a window opens with the first accepted transfer after the
+// previous one ran out, the accepted total inside a window never exceeds the
+// limit, a rejected transfer consumes nothing.
+func VerifC15_Limits() {
+	env := NewVEnv(1000)
+	erc20, _ := types.NewEthAddress(vErc20)
+	if err := env.K.setDenomToERC20(env.Ctx, vChain, vDenom, *erc20); err != nil {
+		panic(err)
+	}
+	big70 := sdkmath.NewIntFromBigInt(new(big.Int).Lsh(big.NewInt(1), 70))
+	env.Bank.SetBalance(vUserA, vDenom, big70)
+	env.Bank.SetBalance(vUserB, vDenom, big70)
+	env.Bank.SetSupply(vDenom, big70.MulRaw(2))
+	limit := sdkmath.NewIntFromUint64(sym.Uint64("limit"))
+	period := []types.LimitPeriod{types.LimitPeriod_DAILY, types.LimitPeriod_NONE}[sym.Choice("period", 2)]
+	configured := sym.Bool("limit-configured")
+	if configured {
+		if err := env.K.SetBridgeTransferLimit(env.Ctx, &types.BridgeTransferLimit{Token: vDenom, Limit: limit, LimitPeriod: period, ExemptAddresses: []sdk.AccAddress{vUserB}}); err != nil {
+			panic(err)
+		}
+	}
+	W := (&types.BridgeTransferLimit{LimitPeriod: types.LimitPeriod_DAILY}).BlockLimit()
+	srv := NewMsgServerImpl(env.K)
+	L := 2
+	if sym.Tier() == "thorough" {
+		L = 3
+	}
+	height := int64(1000)
+	windowOpen, windowStart, windowTotal := false, int64(0), sdkmath.ZeroInt()
+	deltas := []int64{0, 1, W - 1, W, W + 1}
+	for step := 0; step < L; step++ {
+		height += deltas[sym.Choice("blocks-later", len(deltas))]
+		sender := vUserA
+		exempt := sym.Bool("sender-exempt")
+		if exempt {
+			sender = vUserB
+		}
+		amt := sdkmath.NewIntFromUint64(sym.Uint64("amount"))
+		sym.Assume(amt.IsPositive())
+		cctx, commit := env.Ctx.WithBlockHeight(height).CacheContext()
+		balBefore := env.Bank.Balance(sender, vDenom)
+		_, err := srv.SendToRemote(cctx, &types.MsgSendToRemote{EthDest: "0x9999999999999999999999999999999999999999", Amount: sdk.Coin{Denom: vDenom, Amount: amt}, ChainReferenceId: vChain,
+			Metadata: valsettypes.MsgMetadata{Creator: sender.String(), Signers: []string{sender.String()}}})
+		limited := configured && period != types.LimitPeriod_NONE && !exempt
+		if err == nil {
+			commit()
+			sym.Reach("transfer-accepted")
+			if limited {
+				if !windowOpen || height-windowStart >= W {
+					windowOpen, windowStart, windowTotal = true, height, sdkmath.ZeroInt()
+				}
+				windowTotal = windowTotal.Add(amt)
+				sym.Assert(windowTotal.LTE(limit), "accepted-transfers-in-a-window-stay-within-the-limit")
+			}
+		} else {
+			sym.Reach("transfer-rejected")
+			sym.Assert(limited, "unlimited-senders-and-tokens-are-never-refused")
+			if limited {
+				// refused only when it would not fit
+				t := windowTotal
+				if !windowOpen || height-windowStart >= W {
+					t = sdkmath.ZeroInt()
+				}
+				sym.Assert(t.Add(amt).GT(limit), "transfer-that-fits-the-window-is-accepted")
+			}
+			sym.Assert(env.Bank.Balance(sender, vDenom).Equal(balBefore), "rejected-transfer-moves-no-coins")
+		}
+		// the stored usage is the ghost window (a rejected transfer consumed nothing)
+		u, uerr := env.K.BridgeTransferUsage(env.Ctx, vDenom)
+		if windowOpen {
+			sym.Assert(uerr == nil && u != nil && u.Total.Equal(windowTotal) && u.StartBlockHeight == windowStart, "recorded-usage-is-the-accepted-total-of-the-current-window")
+		} else {
+			sym.Assert(u == nil || u.Total.IsNil(), "no-usage-recorded-before-the-first-limited-transfer")
+		}
+	}
+}
+
 var VerifEntries = map[string]func(){
 	"VerifC15_TaxAmount": VerifC15_TaxAmount,
+	"VerifC15_Limits":    VerifC15_Limits,
 }
